@@ -271,6 +271,30 @@ def r2_helpers(repo, rep, cls, sites):
       if not pf.feasible:
         continue
       txt = pf.text()
+      # locals the path conditions read that are not resolved to the parameters (a flag or a value returned by a helper
+      # through a tuple, a name with several definitions): the meaning of the path is then not fully known
+      import builtins as _b
+      def component_of_input(nm_):
+        """A name bound only by unpacking a parameter or the attribute value under validation (attr, op = attr_op; lo, hi = value)."""
+        ds_ = [d_ for n_ in g.nodes for d_ in rd.gen.get(n_, ()) if d_.name == nm_]
+        if not ds_ or not all(d_.how == 'unpack' and d_.value is not None for d_ in ds_):
+          return False
+        for d_ in ds_:
+          src_ = rd.expand(d_.node, d_.value, keep=tuple(params))[0]
+          names_ = {y_.id for y_ in ast.walk(src_) if isinstance(y_, ast.Name)} - {'getattr'}
+          if not names_ <= (set(params) | {q_ for q_ in names_ if component_of_input(q_) and q_ != nm_}):
+            return False
+        return True
+      open_names = sorted({x_.id for conj_ in pf.dnf for e_, t_ in conj_ for x_ in ast.walk(e_)
+                           if isinstance(x_, ast.Name) and x_.id not in params and not hasattr(_b, x_.id) and not x_.id[:1].isupper() and not x_.id.startswith('_v')
+                           and not component_of_input(x_.id)})
+      bound_ = {y_.id for conj_ in pf.dnf for e_, t_ in conj_ for c_ in ast.walk(e_) if isinstance(c_, (ast.GeneratorExp, ast.ListComp, ast.SetComp))
+                for gen_ in c_.generators for y_ in ast.walk(gen_.target) if isinstance(y_, ast.Name)}
+      open_names = [n_ for n_ in open_names if n_ not in bound_]
+
+      def chk(cond, *a_, **k_):
+        return rep.check3(True if cond else (None if open_names else False), *a_,
+                          why_open='the accepting path reads unresolved locals (%s): %s' % (', '.join(open_names[:3]), txt[:120]), **k_)
       # optional-None path: asserts value is None and _is_optional
       def is_none_lit(e, t):
         s = norm(e)
@@ -309,11 +333,11 @@ def r2_helpers(repo, rep, cls, sites):
           return a0 == boundparam and isval(a1)
         return pred
       ok_type = pf.every_case_has(type_lit)
-      rep.check(ok_type, 'R2/helper', '%s: accepted values passed the numeric type test' % hname, f.qualname,
+      chk(ok_type, 'R2/helper', '%s: accepted values passed the numeric type test' % hname, f.qualname,
                 'accepting path: ' + txt[:200], '%s accepts a value on a path that never asserted isinstance(value, int/float): %s' % (hname, txt[:200]), f.loc())
       for (opparam, boundparam, order) in lowers + uppers:
         ok_cmp = pf.every_case_has(cmp_lit_factory(opparam, boundparam, order, None))
-        rep.check(ok_cmp, 'R2/helper', '%s: accepted values positively satisfied the %s comparison' % (hname, opparam), f.qualname,
+        chk(ok_cmp, 'R2/helper', '%s: accepted values positively satisfied the %s comparison' % (hname, opparam), f.qualname,
                   'accepting path lacks test %s(%s): %s' % (opparam, boundparam, txt[:160]),
                   '%s accepts a value without having positively tested it against %s with operator %s in the documented operand order (a NaN or out-of-range value passes): %s'
                   % (hname, boundparam, opparam, txt[:200]), f.loc())
@@ -323,12 +347,12 @@ def r2_helpers(repo, rep, cls, sites):
             return False
           fn = norm(e.func)
           return fn.startswith('%s._test_functions[' % selfn) and norm(e.args[0]) not in params and norm(e.args[1]) not in params
-        rep.check(pf.every_case_has(order_lit), 'R2/helper', '_test_range: accepted pairs passed the order test', f.qualname,
+        chk(pf.every_case_has(order_lit), 'R2/helper', '_test_range: accepted pairs passed the order test', f.qualname,
                   'accepting path lacks the pair-order test: ' + txt[:160], '_test_range accepts a pair without testing lower against upper: %s' % txt[:200], f.loc())
         def tuple_lit(e, t):
           s = norm(e)
           return t and (('isinstance(' in s and 'tuple' in s) or 'len(' in s)
-        rep.check(pf.every_case_has(tuple_lit), 'R2/helper', '_test_range: accepted values are 2-tuples', f.qualname,
+        chk(pf.every_case_has(tuple_lit), 'R2/helper', '_test_range: accepted values are 2-tuples', f.qualname,
                   'accepting path lacks the tuple/arity test', '_test_range accepts a value without the 2-tuple test: %s' % txt[:200], f.loc())
       # integrality
       bound_for_int = lowers[0][1]
@@ -343,7 +367,7 @@ def r2_helpers(repo, rep, cls, sites):
         if t and s.startswith('isinstance(') and s.endswith(', int)') and 'bound' not in s and s != 'isinstance(%s, int)' % bound_for_int:
           return True    # the value is an int
         return False
-      rep.check(pf.every_case_has(int_lit), 'R2/helper', '%s: integrality enforced when the bound is an int' % hname, f.qualname,
+      chk(pf.every_case_has(int_lit), 'R2/helper', '%s: integrality enforced when the bound is an int' % hname, f.qualname,
                 'accepting path without integrality test: ' + txt[:160],
                 '%s accepts a value for an int bound without an integrality test: non-integer values pass for integer-valued fields' % hname, f.loc())
     rep.floor('accepting non-None paths of %s' % hname, n_accept, 1)
